@@ -196,6 +196,17 @@ def run(ctx):
             if ps is None:
                 chk.ob("length/variable-loop/%#04x" % b, 0xB0 <= b <= 0xCF, "only MUL and DIV contain a data-driven loop",
                        where, "")
+                # MUL and DIV work on registers only: apart from the closing opcode fetch no word of the routine may
+                # touch the bus (a bus word addressed through a scratch register would add a wait that depends on what
+                # an earlier instruction left there, not on the instruction trace)
+                seen_, _e, _b = g.explore(dispatch_states(b), stop_at_done=True)
+                # (states whose IR no longer holds the opcode belong to the interrupt entry that may follow the routine)
+                busw = sorted({a_ for (a_, i_) in seen_ if i_ == b and a_ in g.prog and a_ not in g.done
+                               and (mt.word[a_]["busen"] or mt.word[a_]["buswr"])})
+                chk.ob("length/loop-register-only/%#04x" % b, not busw and len(seen_) >= 5,
+                       "the MUL/DIV routine touches the bus only for the closing opcode fetch, so its cycle count depends on "
+                       "its operands alone", where, "bus words inside the routine: %s (%d control states)"
+                       % ([hex(x) for x in busw], len(seen_)), "reachability over the micro-CFG from the dispatch of the opcode")
             else:
                 sigs = {sig(pth) for pth, end in ps if end == "DONE"}
                 lens = sorted({s[0] for s in sigs})
